@@ -508,7 +508,7 @@ func decFaultUnit() harness.Unit {
 var Prop = &harness.Prop{
 	ID:          "C19",
 	Level:       "model_checking",
-	Rule:        "environment-answer exploration: every answer of the scripted source io.Reader (full / full+EOF / zero-byte / 1 byte / half / all-but-one / zero-byte-at-end) and every writer chunk size from {1024,1,bs-1,bs,bs+1,1023,1025,8192,all} is an xp choice; all executions with at most the stated number of deviations from the default answer run on the real PKCS7PaddingReader / PKCS7PaddingWriter / P7BlockEnc / P7BlockDecrypt; model = byte slice (source||pad, unpadded data, CBC over independent SM4). states = distinct (length, buffer pattern / final-block kind); outcomes = verdict classes.",
+	Rule:        "environment-answer exploration: every answer of the scripted source io.Reader (full / full+EOF / zero-byte / 1 byte / half / all-but-one / zero-byte-at-end) and every writer chunk size from {1024,1,bs-1,bs,bs+1,1023,1025,8192,all} is an xp choice; all executions with at most the stated number of deviations from the default answer run on the real PKCS7PaddingReader / PKCS7PaddingWriter / P7BlockEnc / P7BlockDecrypt; model = byte slice (source||pad, unpadded data, CBC over independent SM4). states = distinct (length, buffer pattern / final-block kind); outcomes = verdict classes. Message contents whose last one / three bytes equal the pad value that follows; sources that answer (0, nil) before every piece of data (hundreds in total); readers drained through io.Copy / io.ReadAll / io.CopyN after an initial Read of k bytes.",
 	Assumptions: []string{"sources never return errors other than io.EOF (I/O failures are outside the statement)", "refsm4 + crypto/cipher CBC as reference"},
 	Bounds: func(tier string) string {
 		if tier == "thorough" {
